@@ -26,7 +26,7 @@ ASSUMPTIONS = ["weights/timestamps finite in [0, 1e9], values finite with |x| in
 
 
 def plan(tier):
-    n = 16000 if tier == "quick" else 400000
+    n = 16000 if tier == "quick" else 1200000
     return {"cases": n, "shards": 16, "timeout": 900 if tier == "quick" else 3600, "min_nontrivial": 500,
             "min": {"getter_comparisons": 200000, "rejected_inputs": 2000, "zero_total_weight_states": 500,
                     "after_close_observations": 1000}}
